@@ -46,6 +46,10 @@ pub enum Native {
 	OwnedPoisR,
 	/// Poisonable around a fresh owned collection
 	PoisOwned(usize),
+	/// two distinct zero-sized members (empty owned collections): duplicate-free by identity
+	ZstPair(Kind),
+	/// zero-sized members around two references r_i, r_j: a duplicate iff i == j
+	ZstAround(Kind, usize, usize),
 }
 
 #[derive(Clone, Debug, PartialEq, Eq, Hash, PartialOrd, Ord, Serialize, Deserialize)]
@@ -77,7 +81,7 @@ impl Spec {
 		match self {
 			Spec::Coll(Kind::Retry, _) => true,
 			Spec::Pois(i) => i.retrying(),
-			Spec::Native(n) => matches!(n, Native::Arr3(Kind::Retry, _) | Native::TupMR(Kind::Retry, ..) | Native::Slice(Kind::Retry, _) | Native::NewOW(Kind::Retry, _) | Native::RetryNewVec(_) | Native::RetryNewArr3 | Native::RetryOwnedR(_)),
+			Spec::Native(n) => matches!(n, Native::Arr3(Kind::Retry, _) | Native::TupMR(Kind::Retry, ..) | Native::Slice(Kind::Retry, _) | Native::NewOW(Kind::Retry, _) | Native::ZstPair(Kind::Retry) | Native::ZstAround(Kind::Retry, ..) | Native::RetryNewVec(_) | Native::RetryNewArr3 | Native::RetryOwnedR(_)),
 			_ => false,
 		}
 	}
@@ -103,6 +107,7 @@ impl Spec {
 				Native::BoxedTupVecs(ms, rs) => ms.iter().map(|i| M0 + *i as u32).chain(rs.iter().map(|i| R0 + *i as u32)).collect(),
 				Native::BoxedTupRRP(a, b, p) => vec![R0 + *a as u32, R0 + *b as u32, PR0 + *p as u32],
 				Native::NewOW(_, i) => ow_leaves(*i),
+				Native::ZstAround(_, i, j) => vec![R0 + *i as u32, R0 + *j as u32],
 				_ => vec![],
 			},
 		}
@@ -156,7 +161,7 @@ impl Spec {
 			Spec::Native(n) => {
 				let s = format!("{:?}", n);
 				s.split(|c| c == '(' || c == '[').next().unwrap().to_string() + &match n {
-					Native::Arr3(k, _) | Native::TupMR(k, ..) | Native::Slice(k, _) | Native::NewOW(k, _) => format!("<{}>", k.short()),
+					Native::Arr3(k, _) | Native::TupMR(k, ..) | Native::Slice(k, _) | Native::NewOW(k, _) | Native::ZstPair(k) | Native::ZstAround(k, ..) => format!("<{}>", k.short()),
 					_ => String::new(),
 				}
 			}
@@ -444,6 +449,22 @@ impl<'w> World<'w> {
 					let b_ = self.fresh(true, u);
 					leaves = vec![a_, b_];
 					st.stash(OwnedLockCollection::new((Poisonable::new(reg_r(a_)), reg_r(b_))))
+				}
+				Native::ZstPair(k) => {
+					let arr: [OwnedLockCollection<[R; 0]>; 2] = [OwnedLockCollection::new([]), OwnedLockCollection::new([])];
+					match k {
+						Kind::Boxed => st.stash(BoxedLockCollection::try_new(arr)?),
+						Kind::Ref => st.stash(RefLockCollection::try_new(st.stash(arr))?),
+						Kind::Retry => st.stash(RetryingLockCollection::try_new(arr)?),
+					}
+				}
+				Native::ZstAround(k, i, j) => {
+					let t: (OwnedLockCollection<[R; 0]>, &R, OwnedLockCollection<[R; 0]>, &R) = (OwnedLockCollection::new([]), &a.r[*i], OwnedLockCollection::new([]), &a.r[*j]);
+					match k {
+						Kind::Boxed => st.stash(BoxedLockCollection::try_new(t)?),
+						Kind::Ref => st.stash(RefLockCollection::try_new(st.stash(t))?),
+						Kind::Retry => st.stash(RetryingLockCollection::try_new(t)?),
+					}
 				}
 				Native::PoisOwned(n) => {
 					let u = self.new_unit();
